@@ -121,7 +121,68 @@ def close(a, b, rtol=1e-7, atol=1e-9):
     a, b = np.asarray(a, dtype=float), np.asarray(b, dtype=float)
     if a.shape != b.shape:
         return False
-    return bool(np.all(np.abs(a - b) <= atol + rtol * np.maximum(np.abs(a), np.abs(b))))
+    both_nan = np.isnan(a) & np.isnan(b)
+    with np.errstate(invalid="ignore"):
+        ok = np.abs(a - b) <= atol + rtol * np.maximum(np.abs(a), np.abs(b))
+    return bool(np.all(ok | both_nan))
+
+
+def special_valuations(inputs, polys, seed):
+    """targeted valuations for refutations that random inputs cannot reach:
+    (a) one NaN entry in a multi-element (or any) real input when the obligation mentions isnan;
+    (b) boundary values: an input symbol occurring linearly in a comparison lt(d) / eq(d) is moved so that d == 0 (a tie)"""
+    out = []
+    atoms = set()
+    for arrp in polys:
+        for p in arrp.reshape(-1):
+            atoms |= p.all_atoms()
+    kinds = {P.atom_by_id(i).key[1] for i in atoms if P.atom_by_id(i).kind == "fn"}
+    base = Valuation(inputs, seed + 7)
+    if "isnan" in kinds:
+        for k, inp in enumerate(inputs):
+            if inp.kind == "real" and int(np.prod(inp.shape or (1,))) >= 1:
+                v = Valuation(inputs, seed + 7)
+                a = np.array(v.arrays[k], dtype=float, copy=True)
+                a.reshape(-1)[0] = np.nan
+                v.arrays[k] = a
+                nm = inp.name if a.ndim == 0 else inp.name + "[" + ",".join(["0"] * a.ndim) + "]"
+                v.values[nm] = float("nan")
+                out.append(v)
+    if kinds & {"lt", "eq"}:
+        names = {}
+        for k, inp in enumerate(inputs):
+            if inp.kind in ("real", "pos"):
+                for idx in (np.ndindex(*inp.shape) if inp.shape else [()]):
+                    nm = inp.name if not inp.shape else inp.name + "[" + ",".join(map(str, idx)) + "]"
+                    names[nm] = (k, idx)
+        seen = 0
+        for i in sorted(atoms):
+            a = P.atom_by_id(i)
+            if a.kind != "fn" or a.key[1] not in ("lt", "eq"):
+                continue
+            d = P.poly_from_key(a.key[2][0])
+            for m, cf in d.terms.items():
+                if len(m) == 1 and m[0][1] == 1 and P.atom_by_id(m[0][0]).kind == "sym":
+                    nm = P.atom_by_id(m[0][0]).key[1]
+                    if nm not in names or seen >= 6:
+                        continue
+                    try:
+                        dv = P.evaluate(d, base)
+                    except Exception:
+                        continue
+                    v = Valuation(inputs, seed + 7)
+                    k, idx = names[nm]
+                    arr_ = np.array(v.arrays[k], dtype=float, copy=True)
+                    newval = float(arr_[idx] if idx != () else arr_) - dv / float(cf)
+                    if idx == ():
+                        arr_ = np.asarray(newval)
+                    else:
+                        arr_[idx] = newval
+                    v.arrays[k] = arr_
+                    v.values[nm] = newval
+                    out.append(v)
+                    seen += 1
+    return out
 
 
 class Result(dict):
@@ -317,6 +378,21 @@ class EqObligation(Obligation):
                 rec.update(native_disagrees=True, seed=val.seed, inputs=_inputs(b, val),
                            native=[_arr(x) for x in nat], expected=[_arr(x) for x in exp])
                 break
+        if not rec["native_disagrees"]:
+            try:
+                syms = [JI.sym_input(i.name, tuple(i.shape), "bool" if i.kind == "bool" else "real") for i in b["inputs"]]
+                spec_l = flatten_out(spec(*syms))
+                impl_l = flatten_out(JI.run_symbolic(b["fn"], tuple(syms), example_args=tuple(i.example() for i in b["inputs"]))[0])
+                for val in special_valuations(b["inputs"], spec_l + impl_l, seed):
+                    tried += 1
+                    nat = self._native(b, val)
+                    exp = numeric(spec_l, val)
+                    if len(nat) != len(exp) or not all(close(x, y, 1e-6, 1e-8) for x, y in zip(nat, exp)):
+                        rec.update(native_disagrees=True, seed=val.seed, inputs=_inputs(b, val), special="NaN entry / comparison boundary",
+                                   native=[_arr(x) for x in nat], expected=[_arr(x) for x in exp])
+                        break
+            except Exception as e:
+                rec["special_valuation_error"] = str(e)[:200]
         rec["valuations_tried"] = tried
         res["replay"] = rec
 
